@@ -212,7 +212,7 @@ def run_parser(I, boundary, body, buffer_size, short_call=0, short_len=0):
     return None, fields, fl, st.sizes
 
 
-def body_parser(I, X, framing="CRLF", boundary="b", n=2, kind="field", buffer_size=5, short=False):
+def body_parser(I, X, framing="CRLF", boundary="b", n=2, kind="field", buffer_size=5, short=False, any_bytes=False):
     boundary = boundary.encode("latin-1")
     K = NL[framing]
     payload = X.bytes("payload", n, minlen=n)
@@ -220,7 +220,7 @@ def body_parser(I, X, framing="CRLF", boundary="b", n=2, kind="field", buffer_si
         X.assume(pnone_in(payload, [13]))
     elif framing == "CR":
         X.assume(pnone_in(payload, [10]))
-    if kind == "field" and n > 1:
+    if kind == "field" and n > 1 and not any_bytes:
         # field values are charset-decoded; keep that the identity beyond one byte
         X.assume(pnone_in(payload, [(128, 255)]))
     disp = b'Content-Disposition: form-data; name="a"' + (b'; filename="f"' if kind == "file" else b"")
@@ -288,6 +288,17 @@ def obligations(tier, seed):
                         "opts": {"budget_s": 600, "ctx": {"loop_bound": 1000}},
                         "witness": bs == 7 and n in (2, 3),
                     })
+                if kind == "field" and framing == "CRLF" and n in ((2, 3) if tier == "quick" else (2, 3, 4)):
+                    # arbitrary bytes in a text field (multi-byte and ill-formed UTF-8): the decoded
+                    # value must not depend on where a read cuts the bytes
+                    head = len(b"--b" + K + b'Content-Disposition: form-data; name="a"' + K + K)
+                    for bs in sorted({head + 1, head + 2} if tier == "quick" else set(range(head - 1, head + n + 1)) | {head // 2 + 1, 7}):
+                        out.append({
+                            "name": f"parser-field-bytes[{framing},n={n},buffer_size={bs}]",
+                            "body": "body_parser",
+                            "params": {"framing": framing, "kind": kind, "n": n, "buffer_size": bs, "short": False, "any_bytes": True},
+                            "opts": {"budget_s": 900, "ctx": {"loop_bound": 1000, "max_cp": 0xFFFF}},
+                        })
                 if (tier != "quick" and n <= 4) or (tier == "quick" and framing == "CRLF" and n == 1):
                     # the input stream returns fewer bytes than requested at one solver-chosen
                     # call (sockets do): the result must not depend on it
